@@ -41,6 +41,10 @@ static inline void product(const FormRef &r, const std::vector<std::vector<WOpd>
   }
 }
 
+// digits a zero-padded spelling gets: more than the number has (decimal "010" is ten, hex "0x010" is sixteen)
+static inline int ndigits(uint64_t mag, bool hex) { char b[40]; snprintf(b, sizeof b, hex ? "%llx" : "%llu", (unsigned long long)mag); return (int)strlen(b); }
+static inline int pad_for(uint64_t mag, bool hex, hz::Rng &rng) { return ndigits(mag, hex) + 1 + (int)rng.below(3); }
+
 // ---------- memory shapes ----------
 struct ShapeOpts { bool all_regs = true; bool spellings = true; bool rsp_index = true; int disp_level = 2; bool a32 = true; };
 static inline std::vector<int64_t> disp_values(int level) {
@@ -76,6 +80,8 @@ static inline void shapes(const ShapeOpts &so, hz::Rng &rng, const std::function
             WMem m; m.asize = (base < 0 && index < 0) ? 64 : asize; if (base < 0 && index < 0 && asize == 32) continue;
             m.base = base; m.index = index; m.scale = sp.scale; m.scale_written = sp.written; m.scale_first = sp.first;
             m.has_disp = d.first; m.disp = d.second; m.disp_hex = !(so.spellings && (rng.next() & 3) == 0);
+            // leading zeros (hex and decimal), more often where spellings are the subject
+            if (m.has_disp && rng.below(so.spellings ? 4 : 10) == 0) { if (!so.spellings && rng.coin()) m.disp_hex = false; m.disp_pad = pad_for((uint64_t)(m.disp < 0 ? -m.disp : m.disp), m.disp_hex, rng); }
             cb(m);
           }
         }
@@ -116,6 +122,8 @@ static inline std::vector<ImmSp> imm_spellings(int w, char policy, hz::Rng &rng,
         std::string key = numtext(s.v, s.neg, s.hex, 0);
         if (seen.insert(key).second) out.push_back(s);
         if (hex && many_spellings && !isneg) { ImmSp p = s; p.pad = (w == 64 ? 16 : w / 4); std::string k2 = numtext(p.v, p.neg, p.hex, p.pad); if (seen.insert(k2).second) out.push_back(p); }
+        // leading zeros: decimal stays decimal ("010" is ten), signed spellings too
+        if ((many_spellings && (!hex || isneg)) || (!many_spellings && rng.below(4) == 0)) { ImmSp p = s; uint64_t mag = isneg ? (uint64_t)(0 - pattern) : pattern; p.pad = pad_for(mag, p.hex, rng); if (p.hex && p.pad > 15) p.pad = 15; std::string k2 = numtext(p.v, p.neg, p.hex, p.pad); if (seen.insert(k2).second) out.push_back(p); }
       }
     }
   }
